@@ -378,11 +378,12 @@ COLUMN_FEATURES = {
     'ref_inline': (None, '__ref__'),
     'type_array': ('type', {'type': 'int[]'}), 'type_enum': ('type', {'type': {'enum': ['public', 'e']}}),
     'name_quoted': ('name', {'name': 'a b'}), 'ref_inline2': (None, '__ref2__'),
+    'prop': (None, '__prop__'), 'prop2': (None, '__prop2__'),
 }
 # features that are exercised alone and in pairs only (kept out of the triples to bound the product)
 PAIR_ONLY = {
     'column': {'type_array', 'type_enum', 'name_quoted', 'ref_inline2', 'default_float', 'default_bool', 'default_null',
-               'type_quoted', 'name_reserved'},
+               'type_quoted', 'name_reserved', 'prop2', 'autoinc', 'type_enum_schema'},
     'table': {'name_quoted', 'name_reserved', 'comment_ml'},
     'ref_short': {'comment_ml', 'quoted', 'self'}, 'ref_long': {'comment_ml', 'quoted', 'self'},
     'index': {'quoted', 'note_ml'},
@@ -496,6 +497,12 @@ def element_model(kind: str, features: Tuple[str, ...]) -> Dict[str, Any]:
         if '__ref2__' in special:
             refs.append({'type': '-', 'inline': True, 't1': ['public', 't'], 'c1': [col['name']],
                          't2': ['public', 'other'], 'c2': ['k']})
+        if '__prop__' in special:
+            col['properties'] = [['col_prop', "v 'q'"]]
+            allow = True
+        if '__prop2__' in special:
+            col['properties'] = col.get('properties', []) + [['owner', 'l1\nl2'], ['x1', 'plain']]
+            allow = True
         m = _base(tables=[_table('t', [_col('id'), col]), other], enums=enums, refs=refs)
     elif kind == 'index':
         idx = {'subjects': [{'col': 'id'}]}
